@@ -172,6 +172,11 @@ inside a level the order is a Go map iteration order — irrelevant for commutat
 def Family.readers (f : Family) : List Block :=
   f.files ++ (match f.base with | some b => [b] | none => [])
 
+/-- the files in the order in which their contents were written: the compacted file, then the
+level-0 files in flush order. -/
+def Family.chron (f : Family) : List Block :=
+  (match f.base with | some b => [b] | none => []) ++ f.files
+
 /-- shard state: families by index, and the metric's `timeSeriesIndex.families`
 (created time ↦ metric-level slot range), which is shared by all families of the shard. -/
 structure Shard where
@@ -245,7 +250,9 @@ def Block.cell (blk : Block) (k : PageKey) (slot : Nat) : Option Int :=
 
 /-- kv compaction of the family with the metric-data merger (C03 owns its proof; here it is the
 abstract effect): one block over the union range, fields and series united, every cell the
-field-aggregate of the cells of the inputs (in reader order). -/
+field-aggregate of the cells of the inputs (combined in the order in which they were written;
+the real merger's order only matters for first/last fields whose slot lives in several files,
+which the correspondence stream does not generate: files are read in a map iteration order). -/
 def mergeBlocks (fieldAgg : Nat → AggType) (bs : List Block) : Option Block :=
   match bs with
   | [] => none
@@ -262,7 +269,7 @@ def Shard.compact (s : Shard) (fam : Nat) : Shard :=
   let f := s.family fam
   if f.files.length ≤ 1 then s
   else
-    match mergeBlocks s.fieldAgg f.readers with
+    match mergeBlocks s.fieldAgg f.chron with
     | none => s
     | some blk => { s with families := Map.upsert s.families fam { f with files := [], base := some blk } }
 
